@@ -149,12 +149,8 @@ func runAdm(bs []byte) (string, []string) {
 			x.tr.armFail()
 		}
 		x.tr.feed(nil, errScriptedRead)
-		healed, timedOut := false, false
-		select {
-		case healed = <-x.mon.done:
-		case <-time.After(adpWatch):
-			timedOut = true
-		}
+		healed, ok := laRecv(x.mon.done, adpWatch)
+		timedOut := !ok
 		toks := x.mon.take()
 		if timedOut {
 			viol = append(viol, fmt.Sprintf("the monitor of transport %d did not finish handling a close", t))
@@ -182,7 +178,7 @@ func runAdm(bs []byte) (string, []string) {
 	alive := ""
 	for _, x := range trs {
 		alive += fmt.Sprint(b2i(x.alive))
-		guard(adpWatch, func() { x.ft.Close() })
+		laGuard(adpWatch, func() { x.ft.Close() })
 		x.tr.Close()
 	}
 	return strings.Join(outs, ";") + "|alive=" + alive, viol
